@@ -31,7 +31,7 @@ def make_case(i, rng, tier):
             inp["label"], o.problem or o.unspecified, common.show_diff(o.items, inp["items"], "items")))
     main = common.stray_cc(rng, common.spec("main", inp, strict=True))
     tasks, sched = common.perturb(rng, [main], roots=True)
-    return {"input": {"root": inp["root"], "cc": inp["cc"], "enc": inp["enc"], "label": inp["label"], "optimized": rng.random() < 0.004, "threads": rng.randrange(1 << 30) if rng.random() < 0.0025 else None,
+    return {"input": {"root": inp["root"], "cc": inp["cc"], "enc": inp["enc"], "label": inp["label"], "optimized": rng.random() < 0.003, "threads": rng.randrange(1 << 30) if rng.random() < 0.0015 else None,
                       "arms": sorted(set("%s.%s" % a for a in inp["arms"]))[:40]},
             "tasks": tasks, "schedule": sched}
 
